@@ -398,6 +398,16 @@ func VerifSVGPathArc(n int) {
 				}
 				continue
 			}
+			if n >= 2 {
+				// repeated arcs: radii and rotation fixed, end point from two values (keeps the choice space at 2*64^n)
+				if k < 3 {
+					d = append(d, []string{"5", "5", "0"}[k]...)
+				} else {
+					d = append(d, verifArcArgs[vChoice("r"+string(rune('0'+rep))+string(rune('a'+k)), 2)]...)
+				}
+				d = append(d, ' ')
+				continue
+			}
 			d = append(d, verifArcArgs[vChoice("r"+string(rune('0'+rep))+string(rune('a'+k)), len(verifArcArgs))]...)
 			d = append(d, ' ')
 		}
